@@ -324,7 +324,16 @@ class ObjectType(Type):
         if self.__initialized__:
             return
         self.__initialized__ = True
+        try:
+            self.__gather__()
+        except BaseException:
+            # Not initialized: the next use has to raise again (and not find
+            # a type without arguments)
+            self.__initialized__ = False
+            raise
 
+    def __gather__(self):
+        """Gather the configuration information (called by __initialize__)"""
         from .objects import Task
 
         # Get the module
